@@ -469,7 +469,7 @@ func runScripted(c core.Case) core.Result {
 		s.cfg.MemtableByteThreshold = []int{1, 64, 300}[r.Intn(3)]
 	}
 	nk := 3 + r.Intn(maxHistKeys-2)
-	s.keys = gen.Keys(r, "hostile", nk)
+	s.keys = gen.Keys(r, []string{"hostile", "prefix"}[r.Intn(2)], nk)
 	fps := map[uint64]bool{}
 	for _, k := range s.keys {
 		fps[utils.Hash(k)] = true
